@@ -58,6 +58,47 @@ def enumerate_schedules(LF, W):
     return finals, len(seen), trans
 
 
+def sched_inorder(LF, W):
+    """tasks complete in submission order, handed round-robin to the workers"""
+    return tuple((1 + (i % W), i + 1) for i in range(LF))
+
+
+def sched_batch_reversed(LF, W):
+    """W tasks in flight at a time on workers 1..W; every batch completes in reverse order"""
+    out = []
+    for b in range(0, LF, W):
+        batch = list(range(b, min(b + W, LF)))
+        out += [(1 + (i - b), i + 1) for i in reversed(batch)]
+    return tuple(out)
+
+
+def sched_last_worker_first(LF, W):
+    """worker 1 holds task 1 until the very end while the other workers (or, with one worker, nobody) do the rest in order"""
+    if W == 1 or LF == 1:
+        return sched_inorder(LF, W)
+    out = [(2 + ((i - 1) % (W - 1)), i + 1) for i in range(1, LF)]
+    return tuple(out + [(1, 1)])
+
+
+def feasible(sched, LF, W):
+    """is `sched` a completion history of the pool model (in-order dispatch, <= W in flight, one task per worker)?
+    Tasks are dispatched as late as possible (the most permissive choice) to the worker the history names."""
+    worker_of = {t: w for w, t in sched}
+    if sorted(worker_of) != list(range(1, LF + 1)) or len(sched) != LF or any(not 1 <= w <= W for w in worker_of.values()):
+        return False
+    nxt, busy = 1, {}
+    for w, t in sched:
+        while nxt <= t:
+            if worker_of[nxt] in busy:
+                return False
+            busy[worker_of[nxt]] = nxt
+            nxt += 1
+        if busy.get(w) != t:
+            return False
+        del busy[w]
+    return not busy
+
+
 _HIST_RE = re.compile(r"hist = (<<.*>>)")
 
 
@@ -184,6 +225,8 @@ class VirtualPool:
             vmp.task_hook(self, func, tasks)
             return iter([None] * LF)
         sched = vmp.schedule
+        if callable(sched):  # canonical schedule for whatever number of tasks the implementation submits
+            sched = tuple(sched(LF, self.W))
         if sched is None:
             sched = tuple((1 + (i % self.W), i + 1) for i in range(LF))
         if sorted(t for _, t in sched) != list(range(1, LF + 1)):
